@@ -589,7 +589,7 @@ where
         &mut self,
         entity_identifier: entity::Identifier,
         buffer: *const u8,
-    ) -> usize
+    ) -> (usize, *const u8)
     where
         C: Component,
     {
@@ -606,15 +606,15 @@ where
         //
         // The `R` over which `self.identifier` is generic is the same `R` on which this function
         // is being called.
-        unsafe {
+        let skipped = unsafe {
             R::push_components_from_buffer_skipping_component(
                 buffer,
                 PhantomData::<C>,
                 &mut self.components,
                 self.length,
                 self.identifier.iter(),
-            );
-        }
+            )
+        };
 
         let mut entity_identifiers = ManuallyDrop::new(
             // SAFETY: `self.entity_identifiers` is guaranteed to contain the raw parts for a valid
@@ -635,7 +635,7 @@ where
 
         self.length += 1;
 
-        self.length - 1
+        (self.length - 1, skipped)
     }
 
     /// # Safety
